@@ -158,6 +158,7 @@ class Server:
             'reply_delay': None,       # seconds slept before every send (engine B only)
             'probe_faults': None,      # {host-key name asked for by the client: fault applied to that KEXDH reply}
             'rate': 'normal',          # behaviour towards non-blocking (rate-test) connections
+            'latency': False,          # True: everything the peer sends arrives only after the client has started waiting for it (a scheduling point under vlib.sched)
             'chatter': None,           # {message kind: n}: n SSH_MSG_DEBUG packets in front of every message of that kind (legal at any time, RFC 4253 11.3)
             'check_e': True,           # validate the client's public DH value against the group in use, as servers do (0 < e < p), and disconnect otherwise
         }
@@ -261,6 +262,7 @@ class Conn:
         self.server = server
         self.idx = idx
         self.out = bytearray()
+        self.deferred = bytearray()    # bytes sent by a peer with 'latency' that have not arrived yet
         self.inbuf = bytearray()
         self.closed_by_server = False
         self.closed_by_client = False
@@ -312,7 +314,10 @@ class Conn:
         if n_dbg and data and payload is not None:
             data = wire.pkt(b'\x04\x01' + wire.sstr(b'chatter before %s' % what.encode()) + wire.sstr(b'en')) * n_dbg + data
         if data:
-            self.out += data
+            if self.server.spec.get('latency') and not self.nonblocking:
+                self.deferred += data       # on its way: there once the client has waited for it
+            else:
+                self.out += data
             self.emitted.append((what, bytes(data)))
         if f is not None:
             self.server.log.append((self.idx, 'fault', [what, f]))
@@ -583,6 +588,12 @@ class VSocket:
         c = self.conn
         if c is None:
             raise OSError(errno.ENOTCONN, 'Transport endpoint is not connected')
+        if len(c.out) == 0 and len(c.deferred) > 0:
+            # network latency: the answer is not there when the program first looks; other workers run in the meantime
+            if net.gate is not None:
+                net.gate.connection_point()
+            c.out += c.deferred
+            del c.deferred[:]
         if len(c.out) > 0:
             seg = net.segment
             k = min(n, len(c.out), seg) if seg else min(n, len(c.out))
